@@ -267,6 +267,49 @@ def late_start_histories():
     return out
 
 
+TASK_EVENT_DEF = """
+version: 1.0
+tasks:
+  a:
+    with:
+      items: <% list(1, 2) %>
+      concurrency: 1
+    action: core.echo message=x
+  b:
+    action: core.noop
+"""
+
+
+def task_event_histories():
+    """the workflow starts pausing / canceling because a TASK reports pending / canceled (no request),
+    while a with-items task is in between items"""
+    out = []
+    for report, then, rest in ((st.PENDING, st.SUCCEEDED, st.PAUSED), (st.CANCELED, None, st.CANCELED)):
+        for b_first in (True, False):
+            r = _Run(TASK_EVENT_DEF)
+            c = r.c
+            for t in c.get_next_tasks():
+                if t["id"] == "a":
+                    c.update_task_state("a", 0, events.TaskItemActionExecutionEvent(0, st.RUNNING))
+                else:
+                    c.update_task_state("b", 0, events.ActionExecutionEvent(st.RUNNING))
+            c.update_task_state("b", 0, events.ActionExecutionEvent(report))
+            during = c.get_workflow_status()
+            steps = [("b", then)] if then else []
+            steps = steps + [("a", None)] if b_first else [("a", None)] + steps
+            for who, status in steps:
+                if who == "a":
+                    c.update_task_state("a", 0, events.TaskItemActionExecutionEvent(0, st.SUCCEEDED, result="x"))
+                else:
+                    c.update_task_state("b", 0, events.ActionExecutionEvent(status))
+            end = c.get_workflow_status()
+            more = [t["id"] for t in c.get_next_tasks()]
+            want_during = st.PAUSING if report == st.PENDING else st.CANCELING
+            out.append(("task-event/%s/%s" % (report, "b-first" if b_first else "item-first"), (during, end, more), (want_during, rest, []),
+                        "b reports %s while item 0 of a (2 items, concurrency 1) runs; then %s" % (report, steps)))
+    return out
+
+
 class LateStartHistories(Unit):
     bounded = True
     name = "H.late_start_histories"
@@ -275,14 +318,19 @@ class LateStartHistories(Unit):
     obligations = {
         "C10.hist.request_reaches_late_starter": {"props": ["C10", "C09", "C03"], "text":
             "a task (plain or with-items, with more items than its concurrency or not) that was offered before a pause / cancel request and reports its start only afterwards does not keep the workflow pausing / canceling for ever: the workflow reports pausing / canceling while an action is in flight and paused / canceled as soon as the last one has reported, and offers nothing more - exactly as when the start had been reported before the request"},
+        "C10.hist.task_event_reaches_items": {"props": ["C10", "C09", "C03", "C02"], "text":
+            "when the workflow starts pausing / canceling because a task reports pending / canceled (not because of a request), a with-items task that is in between items is told as well: the workflow reports paused / canceled as soon as the last in-flight action has reported and offers nothing more"},
     }
-    assumptions = ["BOUNDED: twelve concrete histories on three definitions (native run through the public API)"]
+    assumptions = ["BOUNDED: sixteen concrete histories on four definitions (native run through the public API)"]
     trusted = ["CPython", "yaql"]
 
     def run_split(self, ctx, split):
         def thunk(e):
             for name, got, want, detail in late_start_histories():
                 ctx.oblige("C10.hist.request_reaches_late_starter", got == want, {"history": name},
+                           {"history": name, "observed": got, "expected": want, "detail": detail})
+            for name, got, want, detail in task_event_histories():
+                ctx.oblige("C10.hist.task_event_reaches_items", got == want, {"history": name},
                            {"history": name, "observed": got, "expected": want, "detail": detail})
             ctx.canary()
         ctx.eng.explore(thunk)
